@@ -61,6 +61,9 @@ type mockConn struct {
 	mu  sync.Mutex
 	st  model.ShipMessageExchangeState
 	dh  api.WebsocketDataWriterInterface
+	// runs once inside AbortPendingHandshake before it acts: a state update of the read goroutine that is processed
+	// while the user's cancel is under way
+	onAbort func()
 }
 
 type mockDH struct{ id int }
@@ -77,6 +80,13 @@ func (c *mockConn) CloseConnection(safe bool, code int, reason string) {
 }
 func (c *mockConn) AbortPendingHandshake() {
 	c.log.add(fmt.Sprintf("abort:%d", c.id))
+	c.mu.Lock()
+	hook := c.onAbort
+	c.onAbort = nil
+	c.mu.Unlock()
+	if hook != nil {
+		hook()
+	}
 	c.mu.Lock()
 	if c.st == model.SmeHelloStateReadyListen || c.st == model.SmeHelloStatePendingListen {
 		c.st = model.SmeHelloStateAbortDone
@@ -391,6 +401,41 @@ func runHubScenario(seed int64, maxEv int, port int) *hubScenario {
 			record("unregister "+hexs(raw), nil)
 		case choice < 32:
 			raw := spell(rnd, k)
+			raceSt := -1
+			if c, ok := conns[k]; ok {
+				c.mu.Lock()
+				cst := c.st
+				c.mu.Unlock()
+				if cst == 8 && rnd.Intn(2) == 0 {
+					raceSt = 13 // the peer's hello "ready" is processed by the read goroutine while the cancel is under way
+				} else if (cst == 8 || cst == 11) && rnd.Intn(3) == 0 {
+					raceSt = 39 // the write of the "aborted" hello fails: the handshake ends in the error state inside the abort
+				}
+			}
+			if c, ok := conns[k]; ok && raceSt >= 0 {
+				// the connection reports a state between the hub's first look at it and the end of AbortPendingHandshake
+				changed := false
+				var e error
+				if raceSt == 39 {
+					e = hubErr
+				}
+				c.mu.Lock()
+				c.onAbort = func() {
+					c.mu.Lock()
+					c.st = model.ShipMessageExchangeState(raceSt)
+					c.mu.Unlock()
+					before := h.ServiceForSKI(k).ConnectionStateDetail()
+					h.HandleShipHandshakeStateUpdate(k, model.ShipState{State: model.ShipMessageExchangeState(raceSt), Error: e})
+					changed = h.ServiceForSKI(k).ConnectionStateDetail() != before
+					gens.observe(k, h.ServiceForSKI(k).ConnectionStateDetail())
+				}
+				c.mu.Unlock()
+				h.CancelPairingWithSKI(raw)
+				settle(120 * time.Millisecond)
+				record(fmt.Sprintf("cancelrace %s %s %d %s", hexs(raw), hexs(k), raceSt, b01(e != nil)), nil)
+				delayedCreated = changed
+				break
+			}
 			h.CancelPairingWithSKI(raw)
 			settle(120 * time.Millisecond)
 			record("cancel "+hexs(raw), nil)
